@@ -172,6 +172,9 @@ class Scenario:
         self._sensor_store = {}
         self._estimate_store = {}
 
+        # Epochs of time steps taken since the last database output, keyed by ISO timestamp
+        self._pending_epochs = {}
+
         # Save initial states to database
         self.saveDatabaseOutput()
 
@@ -217,19 +220,17 @@ class Scenario:
 
     def saveDatabaseOutput(self) -> None:  # noqa: C901
         """Save Truth, Estimate, and Observation data to the output database."""
-        # Grab `TruthEphemeris` for targets & sensors
-        if not self.database.getData(
-            Query(Epoch).filter(
-                Epoch.timestampISO == self.clock.datetime_epoch.isoformat(timespec="microseconds"),
-            ),
-            multi=False,
-        ):
-            self.database.insertData(
-                Epoch(
-                    julian_date=self.clock.julian_date_epoch,
-                    timestampISO=self.clock.datetime_epoch.isoformat(timespec="microseconds"),
-                ),
-            )
+        # Make sure an `Epoch` exists for the current time step & every step since the last output
+        self._pending_epochs[self.clock.datetime_epoch.isoformat(timespec="microseconds")] = (
+            self.clock.julian_date_epoch
+        )
+        for timestamp_iso, julian_date in self._pending_epochs.items():
+            if not self.database.getData(
+                Query(Epoch).filter(Epoch.timestampISO == timestamp_iso),
+                multi=False,
+            ):
+                self.database.insertData(Epoch(julian_date=julian_date, timestampISO=timestamp_iso))
+        self._pending_epochs = {}
 
         output_data = [tgt.getCurrentEphemeris() for tgt in self.target_agents.values()]
         output_data.extend(sensor.getCurrentEphemeris() for sensor in self.sensor_agents.values())
@@ -312,6 +313,9 @@ class Scenario:
         self.clock.ticToc()
         # Update Julian date properly
         self.current_julian_date = self.clock.julian_date_epoch
+        self._pending_epochs[self.clock.datetime_epoch.isoformat(timespec="microseconds")] = (
+            self.current_julian_date
+        )
 
         # Propagate truth model & predict estimate forward in time.
         for target_agent in self.target_agents.values():
